@@ -247,41 +247,54 @@ def arityMismatch (e : Engine) (rel : String) (ar : Nat) : Bool :=
   | some a => a != ar
   | none => false
 
-/-- `insert_tuples_into` (mod.rs:419); the string is the harness's rendering of the result. -/
-def insert (c : Codec) (e : Engine) (rel : String) (ts : List Tuple) : Engine × String :=
+/-- `insert_tuples_into` (mod.rs:419): new state and `Ok((new_count, dup_count))` / `Err(kind)`. -/
+def insertCore (c : Codec) (e : Engine) (rel : String) (ts : List Tuple) : Engine × Except String (Nat × Nat) :=
   match ts with
-  | [] => (e, "+0/0")
+  | [] => (e, .ok (0, 0))
   | first :: _ =>
     let ar := first.length
-    if !(ts.all (fun t => t.length == ar)) then (e, "err:arity-batch")
-    else if arityMismatch e rel ar then (e, "err:arity-rel")
+    if !(ts.all (fun t => t.length == ar)) then (e, .error "arity-batch")
+    else if arityMismatch e rel ar then (e, .error "arity-rel")
     else
       let time := e.time
       let e1 := ensureShard { e with time := time + 1 } rel
       match append c e1 rel (mkUpdates ts time 1) with
-      | (e2, some k) => (e2, "err:" ++ k)
+      | (e2, some k) => (e2, .error k)
       | (e2, none) =>
-        let (l, n, d) := insertLoop ((aget e2.live rel).getD []) 0 0 ts
-        ({ e2 with live := aset e2.live rel l, arity := aset e2.arity rel ar }, s!"+{n}/{d}")
+        let r := insertLoop ((aget e2.live rel).getD []) 0 0 ts
+        ({ e2 with live := aset e2.live rel r.1, arity := aset e2.arity rel ar }, .ok (r.2.1, r.2.2))
 
-/-- `delete_tuples_from` (mod.rs:572): no arity check. -/
-def delete (c : Codec) (e : Engine) (rel : String) (ts : List Tuple) : Engine × String :=
+/-- `delete_tuples_from` (mod.rs:572): no arity check; `Ok(deleted_count)` / `Err(kind)`. -/
+def deleteCore (c : Codec) (e : Engine) (rel : String) (ts : List Tuple) : Engine × Except String Nat :=
   match ts with
-  | [] => (e, "-0")
+  | [] => (e, .ok 0)
   | _ :: _ =>
     let time := e.time
     let e1 := ensureShard { e with time := time + 1 } rel
     match append c e1 rel (mkUpdates ts time (-1)) with
-    | (e2, some k) => (e2, "err:" ++ k)
+    | (e2, some k) => (e2, .error k)
     | (e2, none) =>
       match aget e2.live rel with
-      | none => (e2, "-0")
+      | none => (e2, .ok 0)
       | some ex =>
         let l := deleteLive ex ts
         let n := ex.length - l.length
         if n > 0 then
-          ({ e2 with live := aset e2.live rel l, arity := aset e2.arity rel ((aget e2.arity rel).getD 2) }, s!"-{n}")
-        else ({ e2 with live := aset e2.live rel l }, s!"-{n}")
+          ({ e2 with live := aset e2.live rel l, arity := aset e2.arity rel ((aget e2.arity rel).getD 2) }, .ok n)
+        else ({ e2 with live := aset e2.live rel l }, .ok n)
+
+/-- the harness's rendering of the two results. -/
+def renderIns : Except String (Nat × Nat) → String
+  | .ok (n, d) => s!"+{n}/{d}"
+  | .error k => "err:" ++ k
+def renderDel : Except String Nat → String
+  | .ok n => s!"-{n}"
+  | .error k => "err:" ++ k
+
+def insert (c : Codec) (e : Engine) (rel : String) (ts : List Tuple) : Engine × String :=
+  ((insertCore c e rel ts).1, renderIns (insertCore c e rel ts).2)
+def delete (c : Codec) (e : Engine) (rel : String) (ts : List Tuple) : Engine × String :=
+  ((deleteCore c e rel ts).1, renderDel (deleteCore c e rel ts).2)
 
 def shardNames (e : Engine) : List String := e.shards.map (·.1)
 
